@@ -48,3 +48,24 @@ package merkle
 //@   ensures idx: result == nil ==> 0 <= sp.Index && sp.Index < sp.Total
 //@   ensures leaf: result == nil ==> sp.LeafHash == leafH(leaf)
 //@   ensures root: result == nil ==> rootHash == pathRoot(sp.Index, sp.Total, sp.LeafHash, sp.Aunts) && rootHash != nil
+
+// ---- C20: proof runtime (application query proofs) ----
+//@ import tmcrypto github.com/tendermint/tendermint/proto/tendermint/crypto
+
+// provesValue / provesAbsence: the operator chain decoded from ops maps the value (or nothing) to root along keypath,
+// consuming every key. ASSUMED as the meaning of a nil result of the proof runtime (ProofOperators.Verify and the
+// registered operator decoders are not under contract).
+//@ spec func provesValue(ops *tmcrypto.ProofOps, root []byte, keypath string, value []byte) bool
+//@ spec func provesAbsence(ops *tmcrypto.ProofOps, root []byte, keypath string) bool
+//@ func ProofRuntime.VerifyValue
+//@   trusted
+//@   assigns nothing
+//@   ensures def: result == nil ==> provesValue(proof, root, keypath, value)
+//@ func ProofRuntime.VerifyAbsence
+//@   trusted
+//@   assigns nothing
+//@   ensures def: result == nil ==> provesAbsence(proof, root, keypath)
+//@ func KeyPath.String
+//@   trusted
+//@   purefn
+//@   assigns nothing
